@@ -1,0 +1,31 @@
+// Copyright 2017 Pilosa Corp.
+//
+// Licensed under the Apache License, Version 2.0 (the "License");
+// you may not use this file except in compliance with the License.
+// You may obtain a copy of the License at
+//
+//     http://www.apache.org/licenses/LICENSE-2.0
+//
+// Unless required by applicable law or agreed to in writing, software
+// distributed under the License is distributed on an "AS IS" BASIS,
+// WITHOUT WARRANTIES OR CONDITIONS OF ANY KIND, either express or implied.
+// See the License for the specific language governing permissions and
+// limitations under the License.
+
+//go:build verif
+// +build verif
+
+package pilosa
+
+// Export shims for the verification harness (/verif, property C19): the view-creation path taken
+// for a peer's CreateViewMessage. Add-only, tag-guarded.
+
+// VerifC19PeerCreateView creates a view the way Server.receiveMessage does for a
+// CreateViewMessage (createViewIfNotExistsBase: no broadcast).
+func VerifC19PeerCreateView(f *Field, name string) error {
+	_, _, err := f.createViewIfNotExistsBase(name)
+	return err
+}
+
+// VerifC19ReceiveMessage hands a cluster message to the server's receiveMessage.
+func VerifC19ReceiveMessage(s *Server, m Message) error { return s.receiveMessage(m) }
